@@ -18,6 +18,8 @@ type Item struct {
 	A  int
 	B  string
 	C  *int
+	S  string // non-pointer column that holds NULL in some stored rows (inserted by raw SQL)
+	K  int    // likewise
 	L  Labels // self-serializing field of reference kind (field type T, serializer *T)
 	P  *Meta  // self-serializing pointer-to-struct field (field type *T is the serializer itself)
 }
@@ -91,7 +93,7 @@ type Partial struct {
 	B  string
 }
 
-const schemaSQL = `CREATE TABLE items (id integer primary key, a integer, b text, c integer, l text, p text)`
+const schemaSQL = `CREATE TABLE items (id integer primary key, a integer, b text, c integer, s text, k integer, l text, p text)`
 
 // idOf gives the key of the i-th row in key order: keys are not contiguous, so
 // "id > k" cuts between rows and a cursor off by one row is visible.
@@ -133,6 +135,14 @@ func buildRows(n int) []Item {
 			v := 10 * i
 			it.C = &v
 		}
+		// s / k: non-pointer fields; the stored cell is NULL for some rows, the struct
+		// then holds the zero value, a map nil
+		if !sNull(it.ID) {
+			it.S = fmt.Sprintf("s%d", it.ID)
+		}
+		if !kNull(it.ID) {
+			it.K = 7 * int(it.ID)
+		}
 		// every row has its own label keys (and some share a key with another value)
 		it.L = Labels{fmt.Sprintf("k%d", i): fmt.Sprintf("v%d", it.ID)}
 		if i%2 == 1 {
@@ -143,6 +153,10 @@ func buildRows(n int) []Item {
 	}
 	return out
 }
+
+// which stored cells of the non-pointer columns are NULL (by key; row index = (id-2)/3)
+func sNull(id uint) bool { return id != 0 && ((id-2)/3)%3 == 1 }
+func kNull(id uint) bool { return id != 0 && ((id-2)/3)%4 == 3 }
 
 func seqN(n int) []int {
 	out := []int{}
@@ -429,7 +443,24 @@ func rowKey(it Item) string {
 	if it.C != nil {
 		cs = fmt.Sprint(*it.C)
 	}
-	return fmt.Sprintf("%d|%d|%s|%s|%s|%s", it.ID, it.A, it.B, cs, labelsText(it.L), metaText(it.P))
+	return fmt.Sprintf("%d|%d|%s|%s|%q|%d|%s|%s", it.ID, it.A, it.B, cs, it.S, it.K, labelsText(it.L), metaText(it.P))
+}
+
+// mapKey is the canonical form of a table row read into a map: NULL cells of the
+// non-pointer columns are nil there (the struct form holds the zero value).
+func mapKey(it Item) string {
+	cs := "NULL"
+	if it.C != nil {
+		cs = fmt.Sprint(*it.C)
+	}
+	ss, ks := fmt.Sprintf("%q", it.S), fmt.Sprint(it.K)
+	if sNull(it.ID) {
+		ss = "NULL"
+	}
+	if kNull(it.ID) {
+		ks = "NULL"
+	}
+	return fmt.Sprintf("%d|%d|%s|%s|%s|%s|%s|%s", it.ID, it.A, it.B, cs, ss, ks, labelsText(it.L), metaText(it.P))
 }
 
 func rowKeys(items []Item) []string {
